@@ -229,7 +229,7 @@ pub fn sim_engine(prop: &str) -> Option<SimEngine> {
         },
         "C02" => SimEngine {
             prop: "C02",
-            profile: "progress",
+            profile: "progress2",
             quick: 1500,
             max_len: 90,
             eager_ratio: 80,
